@@ -12,7 +12,15 @@ import (
 func (vc *VC) execBlock(s *State, list []ast.Stmt) *State {
 	for _, st := range list {
 		if s.dead {
-			break
+			// a labeled statement that is the target of pending forward gotos revives the flow
+			if ls, ok := st.(*ast.LabeledStmt); ok && len(vc.frame().gotos[ls.Label.Name]) > 0 {
+				s.dead = false
+				pend := vc.frame().gotos[ls.Label.Name]
+				delete(vc.frame().gotos, ls.Label.Name)
+				vc.join(s, pend...)
+				vc.execStmt(s, ls.Stmt, ls.Label.Name)
+			}
+			continue
 		}
 		vc.execStmt(s, st, "")
 	}
@@ -24,6 +32,7 @@ func (vc *VC) execStmt(s *State, st ast.Stmt, label string) {
 		return
 	}
 	vc.curPos = st.Pos()
+	vc.curStmt = st
 	switch x := st.(type) {
 	case *ast.EmptyStmt:
 	case *ast.ExprStmt:
@@ -33,6 +42,7 @@ func (vc *VC) execStmt(s *State, st ast.Stmt, label string) {
 			vc.evalMulti(s, x.X, 1)
 		}
 	case *ast.AssignStmt:
+		vc.siteClauses(s, "assign:"+exprStr(x.Lhs[0]), st)
 		vc.execAssign(s, x)
 	case *ast.DeclStmt:
 		gd := x.Decl.(*ast.GenDecl)
@@ -98,9 +108,12 @@ func (vc *VC) execStmt(s *State, st ast.Stmt, label string) {
 	case *ast.TypeSwitchStmt:
 		vc.execTypeSwitch(s, x, label)
 	case *ast.LabeledStmt:
+		// forward gotos to this label are joined here, before the labeled statement
+		if pend := vc.frame().gotos[x.Label.Name]; len(pend) > 0 {
+			delete(vc.frame().gotos, x.Label.Name)
+			vc.join(s, append([]*State{s.clone()}, pend...)...)
+		}
 		vc.execStmt(s, x.Stmt, x.Label.Name)
-		// forward gotos to this label are joined here
-		vc.joinGoto(s, x.Label.Name)
 	case *ast.BranchStmt:
 		vc.execBranch(s, x)
 	case *ast.ReturnStmt:
@@ -353,17 +366,6 @@ func (vc *VC) execBranch(s *State, x *ast.BranchStmt) {
 	}
 }
 
-// joinGoto merges states that jumped forward to label into s (only forward gotos are supported).
-func (vc *VC) joinGoto(s *State, label string) {
-	fr := vc.frame()
-	if fr.gotos == nil || len(fr.gotos[label]) == 0 {
-		return
-	}
-	// the labeled statement has already been executed on s; forward-goto states must execute it too.
-	// Supported idiom: label is the last statement region of the function; handled in execLabeledTail.
-	vc.unsupported(fr.fn.Decl, "goto to label "+label+" (only supported through execLabeledTail)")
-}
-
 func (vc *VC) execSwitch(s *State, x *ast.SwitchStmt, label string) {
 	if x.Init != nil {
 		vc.execStmt(s, x.Init, "")
@@ -511,4 +513,37 @@ func (vc *VC) execTypeSwitch(s *State, x *ast.TypeSwitchStmt, label string) {
 	fr.targets = fr.targets[:len(fr.targets)-1]
 	ends = append(ends, tgt.breaks...)
 	vc.join(s, ends...)
+}
+
+// siteClauses applies "site <key> assert e" (obligation) and "site <key> assume-known-finding ID: e" (restriction)
+// clauses of the function under verification at a statement.
+func (vc *VC) siteClauses(s *State, key string, st ast.Stmt) {
+	if len(vc.frames) != 1 || vc.fn.Spec == nil {
+		return
+	}
+	spec := vc.fn.Spec
+	as, kfs := spec.Asserts[key], spec.SiteKFs[key]
+	if len(as) == 0 && len(kfs) == 0 {
+		return
+	}
+	fr := vc.frame()
+	env := &SpecEnv{vc: vc, st: s, old: vc.entry, vars: map[string]TV{}, pkg: fr.pkg, what: "site " + key + " of " + shortKey(vc.fn.Key)}
+	// innermost scope containing the statement
+	env.scope = fr.info.Scopes[vc.fn.Decl.Type]
+	if sc := vc.fn.Pkg.Types.Scope().Innermost(st.Pos()); sc != nil {
+		env.scope = sc
+	}
+	env.pos = st.Pos()
+	for k, t := range s.ghost {
+		env.vars[k] = TV{t, vc.ghostTypes[k]}
+	}
+	vc.usedSites[key] = true
+	for _, kf := range kfs {
+		if !vc.noKF {
+			s.assume(env.evalBool(kf.Expr))
+		}
+	}
+	for i, a := range as {
+		vc.oblige(s, "assert", fmt.Sprintf("%s:%d", key, i+1), "site assertion: "+a.Src, st.Pos(), env.evalBool(a))
+	}
 }
